@@ -282,6 +282,15 @@ pub fn rec_wire_bytes(args: &Args) {
         }
         b.extend([0xFF, 1, 2, 3]);
         ev_from_bytes(&mut out, &b);
+        // more options than a size-limited message could hold (the parser has no such limit): 1 276 .. 3 000
+        // one-byte options (TLC's reference decoder is quadratic in the number of options: no more than that), then a real option, the marker and a payload
+        for n in [1276usize, 1277, 1500, 3000] {
+            let mut b = HEADERS[0].to_vec();
+            b.push(0x10);
+            b.extend(std::iter::repeat(0x00u8).take(n - 1));
+            b.extend([0xC2, 0x01, 0x02, 0xFF, 0x33, 0x44]);
+            ev_from_bytes(&mut out, &b);
+        }
         let mut b = HEADERS[2].to_vec();
         push_hdr(&mut b, 2000, 65535 + 269);
         b.extend(r.bytes(65535 + 269));
